@@ -2002,6 +2002,22 @@ def functions():
         return "Definition g_read_message (reader : list Z) : Z * res (message * list Z) :=\n  %s." % text
     out.append(("codec_read_message", "src/protocol.rs Codec::read_message", None, t_codec_read))
 
+    def t_codec_write():
+        src = read("src/protocol.rs")
+        params, ret, body = R.find_fn(src, "write_message", "Codec")
+        if [n for n, _ in params] != ["self", "writer", "message"]:
+            raise Unsupported("signature of Codec::write_message is %s" % params)
+        spec = dict(hdr_spec(), self_type="Codec", try_transparent=True, u32_try_from="RErr EPayload",
+                    updates={"writer.write_all": "{0} ++ {1}"}, effects_set={"header.write_to": ("writer", "{1} ++ header_encode {0}")},
+                    errs=[(r"Payload exceeds", "RErr EPayload")], ok=lambda s_: "ROk writer", prologue="let writer := [] in ")
+        spec["calls"] = dict(spec["calls"], **{".encode": ("encode_message {0}", "Vec<u8>"), ".msg_type": ("msg_type {0}", "MessageType"),
+                                               "FrameHeader::new": ("g_header_new {0} {1}", "FrameHeader")})
+        spec["try_res_calls"] = {}
+        fn = Fn(spec)
+        text = spec["prologue"] + fn.block(body, {"self": "Codec", "writer": "Vec<u8>", "message": "Message"}, Ctx(val=(lambda x: x), ret=(lambda x: x), fall=None))
+        return "Definition g_write_message (message : message) : res (list Z) :=\n  %s." % text
+    out.append(("codec_write_message", "src/protocol.rs Codec::write_message", None, t_codec_write))
+
     def t_dvalidate():
         src = read("src/delta.rs")
         spec = dict(fields={("Delta", "ops"): ("(d_ops _ {0})", "Vec<DeltaOp>"), ("Delta", "basis_size"): ("(d_basis_size _ {0})", "u64")},
@@ -2849,7 +2865,7 @@ GROUPS = {
     "Archive": ("Model.Archive", "archive", ["archive_load"]),
     "Plan": ("Model.Glob Model.Plan", False, ["needs_transfer", "glob_match", "is_excluded", "build_plan"]),
     "Protocol": ("Model.Checksum Model.Delta Model.Protocol", False, ["from_u8", "hvalidate"]),
-    "ProtocolHeader": ("Model.Checksum Model.Delta Model.Bincode Model.Protocol Gen.ProtocolGen", "protocolheader", ["header_new", "header_encode", "header_decode", "header_read_from", "codec_read_message"]),
+    "ProtocolHeader": ("Model.Checksum Model.Delta Model.Bincode Model.Protocol Gen.ProtocolGen", "protocolheader", ["header_new", "header_encode", "header_decode", "header_read_from", "codec_read_message", "codec_write_message"]),
     "CliReaders": ("Model.Checksum Model.Delta Model.Protocol", "clireaders", ["validate_block_size", "run_patch", "run_delta"]),
     "DeltaV": ("Model.Checksum Model.Delta", True, ["delta_validate"]),
     "SigTable": ("Model.Checksum Model.Delta", "sigtable", ["bsig_compute", "sig_generate", "table_from_signature", "table_find_match", "table_has_weak_match", "table_is_empty"]),
